@@ -193,10 +193,16 @@ func (c *wCursor) Item() (store.Item, error) {
 func perturb(seed int64) func(string) {
 	var mu sync.Mutex
 	r := rand.New(rand.NewSource(seed))
-	return func(string) {
+	return func(kind string) {
 		mu.Lock()
 		k := r.Intn(10)
+		long := kind == "after-rollback" && r.Intn(12) == 0
 		mu.Unlock()
+		if long {
+			// long enough for other goroutines to commit a few transactions (a commit of bbolt is a disk sync)
+			time.Sleep(12 * time.Millisecond)
+			return
+		}
 		switch {
 		case k < 5:
 			runtime.Gosched()
